@@ -935,7 +935,7 @@ mod bool {
                 }
             }
 
-            deserializer.deserialize_tuple_struct(stringify!($vec3), 3, Vec3Visitor)
+            deserializer.deserialize_tuple_struct("BVec3A", 3, Vec3Visitor)
         }
     }
 
